@@ -19,6 +19,7 @@ boxes with routed points (inductive) — see DESIGN.md.
 from __future__ import annotations
 
 import ast
+from engine.util import clone_ast
 from typing import List, Optional
 
 from engine.src import FunctionInfo, own_nodes, own_nodes_incl_lambda, src_of, AnalysisError
@@ -175,12 +176,27 @@ def check_a(ck, repo):
     if len(loops) == 1:
         iv = loops[0].target.id
         st = {}
-        for p in block_paths(tp, loops[0].body):
+        # locals bound before the loop to the tree's arrays are read as those arrays
+        from engine.patheval import PathEval as _PE0
+        from .sem import complement_norm as _cn0
+
+        env0 = {}
+        try:
+            pq = [q for q in _PE0(tp.node, {}, post=_cn0).run([s_ for s_ in tp.node.body if s_.lineno < loops[0].lineno]) if q.ret is None]
+            if pq:
+                env0 = {k: ast.Attribute(value=ast.Name(id="tree", ctx=ast.Load()), attr=v.attr, ctx=ast.Load()) for k, v in pq[-1].env.items() if isinstance(v, ast.Attribute) and v.attr in ("children_left", "children_right", "node_count")}
+        except Exception:
+            env0 = {}
+        # the loop visits either every node (and skips the leaves) or the internal nodes only
+        it_t = ast.unparse(_cn0(_SubAliases(env0).visit(clone_ast(loops[0].iter)))).replace(" ", "")
+        internal_only = it_t in ("numpy.flatnonzero(tree.children_left!=TREE_LEAF).tolist()", "numpy.flatnonzero(tree.children_left!=TREE_LEAF)", "numpy.where(tree.children_left!=TREE_LEAF)[0]", "numpy.nonzero(tree.children_left!=TREE_LEAF)[0]", "numpy.where(tree.children_left!=TREE_LEAF)[0].tolist()", "numpy.nonzero(tree.children_left!=TREE_LEAF)[0].tolist()")
+        all_nodes = it_t in ("range(tree.node_count)", "range(0,tree.node_count)", "range(len(tree.children_left))", "range(0,len(tree.children_left))")
+        for p in block_paths(tp, loops[0].body, env0):
             if p.ret in (CONTINUE, BREAK):
                 continue
             st = {k: ast.unparse(v) for k, v in p.stores.items()}
             leaf_skipped = any((t.endswith(".children_left[%s] == TREE_LEAF" % iv) or (t.startswith("TREE_LEAF == ") and t.endswith(".children_left[%s]" % iv))) and not pol for t, pol in p.conds)
-            okp = leaf_skipped and len(st) == 2 and any(k.endswith(f".children_left[{iv}]]") and v == iv for k, v in st.items()) and any(k.endswith(f".children_right[{iv}]]") and v == f"-{iv}" for k, v in st.items())
+            okp = ((all_nodes and leaf_skipped) or (internal_only and not p.conds)) and len(st) == 2 and any(k.endswith(f".children_left[{iv}]]") and v == iv for k, v in st.items()) and any(k.endswith(f".children_right[{iv}]]") and v == f"-{iv}" for k, v in st.items())
     ck.verdict(okp, "C12.a", tp, "parents[left] = i; parents[right] = -i", "both children of every internal node point to their parent (right child marked by the sign)", "tree_node_parents does not record both children of an internal node")
     # predict_leaves
     pl = repo.func(TS, "predict_leaves")
@@ -216,6 +232,16 @@ def check_a(ck, repo):
     return n
 
 
+class _SubAliases(ast.NodeTransformer):
+    def __init__(self, env):
+        self.env = env
+
+    def visit_Name(self, n):
+        if isinstance(n.ctx, ast.Load) and n.id in self.env:
+            return clone_ast(self.env[n.id])
+        return n
+
+
 def _unwrap(x: ast.AST) -> ast.AST:
     while True:
         if isinstance(x, ast.Call) and isinstance(x.func, ast.Attribute) and x.func.attr in ("ravel", "flatten", "tolist") and not x.args:
@@ -228,16 +254,31 @@ def _unwrap(x: ast.AST) -> ast.AST:
 
 def check_b(ck, repo):
     fi = repo.func(TS, "tree_node_range")
-    loops = [l for l in own_nodes(fi.node) if isinstance(l, ast.For) and isinstance(l.iter, ast.Call) and src_of(l.iter.func) == "enumerate"]
-    if len(loops) != 1 or not (isinstance(loops[0].target, ast.Tuple) and len(loops[0].target.elts) == 2):
+    loops = [l for l in own_nodes(fi.node) if isinstance(l, ast.For) and isinstance(l.iter, ast.Call) and src_of(l.iter.func) in ("enumerate", "zip") and isinstance(l.target, ast.Tuple) and len(l.target.elts) == 2]
+    if len(loops) != 1:
         ck.unknown("C12.b", fi, "for ind, p in enumerate(path)", "walk along the root-to-node path not found")
         return
     l = loops[0]
-    ind, pv = [src_of(e) for e in l.target.elts]
     ex = expander(repo)
-    pth = src_of(l.iter.args[0])
-    ptx = ex.text(l.iter.args[0], fi, l)
     node_p = fi.named_params[1]
+    zipped = src_of(l.iter.func) == "zip"
+    if zipped:
+        # for p, child in zip(path[:-1], path[1:]): every node but the last with its successor
+        a0, a1 = (l.iter.args + [None, None])[:2]
+        okz = isinstance(a0, ast.Subscript) and isinstance(a1, ast.Subscript) and src_of(a0.value) == src_of(a1.value) and src_of(a0.slice) == ":-1" and src_of(a1.slice) == "1:"
+        if not okz:
+            ck.unknown("C12.b", fi, l.iter, "walk along the root-to-node path not understood (expected zip(path[:-1], path[1:]))")
+            return
+        pv, child_t = [src_of(e) for e in l.target.elts]
+        ind = None
+        pth = src_of(a0.value)
+        path_expr = a0.value
+    else:
+        ind, pv = [src_of(e) for e in l.target.elts]
+        pth = src_of(l.iter.args[0])
+        path_expr = l.iter.args[0]
+        child_t = f"{pth}[{ind} + 1]"
+    ptx = ex.text(path_expr, fi, l)
     ck.verdict(ptx in (want(repo, f"tree_find_path_to_root(tree, {node_p}, parents)", fi, l), want(repo, f"tree_find_path_to_root(tree, {node_p}, parents=parents)", fi, l)), "C12.b", fi, f"path = {ptx[:60]}", "constraints come from the root-to-node path", "path is not the root-to-node path")
     # the box holds thresholds (float64 in scikit-learn trees): its array must not narrow them
     rets_ = [p for p in paths(fi) if p.ret not in (None, RAISE)]
@@ -252,18 +293,33 @@ def check_b(ck, repo):
         else:
             okdt = False
     ck.verdict(okdt, "C12.b", fi, "box array holds float64 thresholds", "thresholds are stored as they are in the tree", "the box is stored in a narrower type than the tree's float64 thresholds: a point between a threshold and its rounded value lies in another leaf's box than the one it is routed to")
-    ps = block_paths(fi, l.body)
+    # locals bound before the loop (aliases of the tree's arrays) are read as what they stand for
+    from engine.patheval import PathEval as _PE
+    from .sem import complement_norm as _cn
+
+    pre_env = {}
+    try:
+        pre_paths = [q for q in _PE(fi.node, {}, post=_cn).run([s_ for s_ in fi.node.body if s_.lineno < l.lineno]) if q.ret is None]
+        if len(pre_paths) >= 1:
+            pre_env = {k: ast.Attribute(value=ast.Name(id="tree", ctx=ast.Load()), attr=v.attr, ctx=ast.Load()) for k, v in pre_paths[-1].env.items() if isinstance(v, ast.Attribute) and v.attr in ("feature", "threshold", "children_left", "children_right") and ast.unparse(v.value) in ("tree", "_get_tree(tree)")}
+    except Exception:
+        pre_env = {}
+    ps = block_paths(fi, l.body, pre_env)
     stop = [p for p in ps if p.ret == BREAK]
-    ck.verdict(len(stop) == 1 and stop[0].conds == ((f"{node_p} == {pv}", True),) or len(stop) == 1 and stop[0].conds == ((f"{pv} == {node_p}", True),), "C12.b", fi, f"if {pv} == {node_p}: break", "the node itself contributes no constraint", "the walk does not stop at the node itself")
+    if zipped:
+        ck.verdict(not stop, "C12.b", fi, f"for {pv}, {child_t} in zip({pth}[:-1], {pth}[1:])", "the node itself (last of the path) contributes no constraint", "the walk over (node, next node) pairs is cut short")
+    else:
+        ck.verdict(len(stop) == 1 and stop[0].conds == ((f"{node_p} == {pv}", True),) or len(stop) == 1 and stop[0].conds == ((f"{pv} == {node_p}", True),), "C12.b", fi, f"if {pv} == {node_p}: break", "the node itself contributes no constraint", "the walk does not stop at the node itself")
     going = [p for p in ps if p.ret is None]
     left_fact = None
     seen = {}
     for p in going:
         side = None
         for t, pol in p.conds:
-            if t in (f"tree.children_left[{pv}] == {pth}[{ind} + 1]", f"tree.children_left[{pv}] == {pth}[1 + {ind}]", f"{pth}[{ind} + 1] == tree.children_left[{pv}]"):
+            nxt = {child_t, child_t.replace(f"{ind} + 1", f"1 + {ind}")} if ind else {child_t}
+            if any(t in (f"tree.children_left[{pv}] == {c_}", f"{c_} == tree.children_left[{pv}]") for c_ in nxt):
                 side = "left" if pol else "right"
-            if t in (f"tree.children_right[{pv}] == {pth}[{ind} + 1]", f"tree.children_right[{pv}] == {pth}[1 + {ind}]"):
+            if any(t in (f"tree.children_right[{pv}] == {c_}", f"{c_} == tree.children_right[{pv}]") for c_ in nxt):
                 side = "right" if pol else "left"
         if side is None or len(p.stores) != 1:
             seen["?"] = (sorted(p.conds), {k: ast.unparse(v) for k, v in p.stores.items()})
@@ -330,6 +386,7 @@ def check_c(ck, repo):
     if vals is None:
         raise AnalysisError("anchor vanished: the list of node values in digitize2tree")
     n_branches = 0
+    seen_kinds = set()
     for g in sorted(nested, key=lambda f: f.node.lineno):
         for p in paths(g):
             ev = [(k, c) for c in p.calls for k in [_kind(repo, g, names, c, vals)] if k]
@@ -354,6 +411,9 @@ def check_c(ck, repo):
             v = ast.unparse(val.args[0]) if val.args else None
             is_leaf = a[3] if len(a) > 3 else None
             th = a[5] if len(a) > 5 else None
+            seen_kinds.add("leaf" if is_leaf == "True" else "split")
+            if g.name == "add_root" or (len(a) > 1 and a[1] in ("-1",)):
+                seen_kinds.add("root")
             if is_leaf == "True":
                 ck.verdict(v not in ("UNUSED", "numpy.nan") and th == "0", "C12.c", g, f"{label}: leaf", f"leaf carries the bin number {v}", f"{label}: a leaf is stored with value {v} / threshold {th}")
             else:
@@ -375,7 +435,7 @@ def check_c(ck, repo):
                 ck.verdict(ok, "C12.c", g, f"{label}: children {[(x[1], x[2], x[3]) for x in ra]}", "children are attached to the node just created; left covers [i, m), right [m, j), m the middle edge", f"{label}: recursive calls {[(x[0][:20], x[1], x[2], x[3]) for x in ra]}: ranges changed, or children are not attached to the node just created")
                 if is_leaf == "False" and th is not None and len(ra) == 2:
                     ck.verdict(ctext(th) == ctext(f"{bins_p}[{ra[0][2]}]"), "C12.c", g, f"{label}: threshold {th}", "the threshold is the edge that separates the two children", f"{label}: threshold {th} is not bins[{ra[0][2]}], the edge between the two child ranges")
-    ck.verdict(n_branches >= 6, "C12.c", fi, f"{n_branches} node-creating paths in the builders", "root, two leaf cases and the split cases are all present", f"only {n_branches} node-creating paths were found")
+    ck.verdict(n_branches >= 3 and seen_kinds >= {"root", "leaf", "split"}, "C12.c", fi, f"{n_branches} node-creating paths in the builders ({sorted(seen_kinds)})", "root, leaf and split cases are all present", f"only {sorted(seen_kinds)} among root / leaf / split node-creating paths were found ({n_branches} paths)")
     # top level
     oka = len(asc) >= 1
     for p in asc:
